@@ -866,3 +866,321 @@ Qed.
 
 Lemma digits_val_nonneg : forall ds, forallb is_digit ds = true -> 0 <= digits_val ds.
 Proof. intros ds H. unfold digits_val. apply fold_digits_nonneg; [lia|assumption]. Qed.
+
+(** ------------------------------------------------------------ refusals of parse_region_string *)
+Lemma parse_region_string_colon_gen : forall name rest,
+  forallb notcolon name = true ->
+  parse_region_string (name ++ c_colon :: rest) =
+  if is_nil (strip name) then None
+  else match expect (tokenize (take_while notcolon rest)) with
+       | None => None
+       | Some (a, ob) => Some (strip name, Some a, ob)
+       end.
+Proof.
+  intros name rest Hc. unfold parse_region_string.
+  rewrite split_colon_app by assumption.
+  destruct (split_colon_hd rest) as [t ->]. reflexivity.
+Qed.
+
+(** empty (or blank-only) name *)
+Theorem refuse_empty_name : forall w rest, forallb is_blank w = true ->
+  parse_region_string (w ++ c_colon :: rest) = None /\ parse_region_string w = None.
+Proof.
+  intros w rest Hw. split.
+  - rewrite parse_region_string_colon_gen by now apply blank_notcolon.
+    now rewrite strip_blank.
+  - unfold parse_region_string. rewrite split_colon_nocolon by now apply blank_notcolon.
+    now rewrite strip_blank.
+Qed.
+
+Definition suffix (r s : str) : Prop := exists pre, s = pre ++ r.
+
+Lemma suffix_refl : forall s, suffix s s. Proof. intros s. now exists []. Qed.
+Lemma suffix_trans : forall a b c, suffix a b -> suffix b c -> suffix a c.
+Proof. intros a b c [p ->] [q ->]. exists (q ++ p). now rewrite app_assoc. Qed.
+Lemma suffix_cons : forall x r s, suffix r s -> suffix r (x :: s).
+Proof. intros x r s [p ->]. now exists (x :: p). Qed.
+Lemma drop_while_suffix : forall (p : ascii -> bool) l, suffix (drop_while p l) l.
+Proof. intros p l. exists (take_while p l). now rewrite take_drop_while. Qed.
+
+Lemma last_non_newline_suffix : forall s c rest, last_non_newline s = Some (c, rest) -> suffix rest s.
+Proof.
+  induction s as [|a s IH]; simpl; intros c rest H; [discriminate|].
+  destruct (last_non_newline s) as [[c' r']|] eqn:E.
+  - inversion H; subst. apply suffix_cons. eapply IH; eauto.
+  - destruct (is_newline a); inversion H; subst. apply suffix_cons, suffix_refl.
+Qed.
+
+Lemma match_at_suffix : forall s t rest, match_at s = Some (t, rest) -> suffix rest s.
+Proof.
+  intros s t rest. unfold match_at.
+  pose proof (drop_while_suffix is_blank s) as S0.
+  destruct (drop_while is_blank s) as [|c r'] eqn:E.
+  - destruct (last_non_newline s) as [[c rest']|] eqn:L; [|discriminate].
+    intros H; inversion H; subst. eapply last_non_newline_suffix; eauto.
+  - assert (S1 : suffix r' s) by (eapply suffix_trans; [apply suffix_cons, suffix_refl|exact S0]).
+    destruct (is_hyphen c); [intros H; inversion H; subst; exact S1|].
+    destruct (is_digit_or_comma c) eqn:Hdc.
+    + intros H; inversion H; subst. clear H. simpl. rewrite Hdc.
+      eapply suffix_trans; [|exact S1].
+      eapply suffix_trans; [apply drop_while_suffix|].
+      pose proof (drop_while_suffix is_digit_or_comma r') as S2.
+      destruct (drop_while is_digit_or_comma r') as [|d r1']; [exact S2|].
+      destruct (is_dot d); [|exact S2].
+      eapply suffix_trans; [apply drop_while_suffix|].
+      eapply suffix_trans; [apply suffix_cons, suffix_refl|exact S2].
+    + intros H; inversion H; subst. clear H.
+      destruct (negb (is_newline c)); [|exact S0].
+      eapply suffix_trans; [apply drop_while_suffix|exact S1].
+Qed.
+
+Lemma match_at_hyphen_inv : forall s x rest,
+  match_at s = Some ((HYPHEN, x), rest) -> existsb is_hyphen s = true.
+Proof.
+  intros s x rest. unfold match_at.
+  pose proof (take_drop_while is_blank s) as TD.
+  destruct (drop_while is_blank s) as [|c r'] eqn:E.
+  - destruct (last_non_newline s) as [[c rest']|]; [|discriminate]. intros H; inversion H.
+  - destruct (is_hyphen c) eqn:Hh.
+    + intros _. rewrite <- TD, existsb_app. simpl. rewrite Hh. now rewrite orb_true_r.
+    + destruct (is_digit_or_comma c); intros H; inversion H.
+Qed.
+
+Lemma existsb_suffix : forall (p : ascii -> bool) r s, suffix r s -> existsb p r = true -> existsb p s = true.
+Proof. intros p r s [pre ->] H. rewrite existsb_app, H. apply orb_true_r. Qed.
+
+(** the grammar cannot succeed on a text without a hyphen *)
+Lemma expect_needs_hyphen : forall s, expect (tokenize s) <> None -> existsb is_hyphen s = true.
+Proof.
+  intros s. rewrite tokenize_eq.
+  destruct (match_at s) as [[[ty1 x1] r1]|] eqn:E1; [|simpl; congruence].
+  destruct ty1; simpl; try congruence.
+  destruct (parse_humanized x1); [|congruence].
+  rewrite tokenize_eq.
+  destruct (match_at r1) as [[[ty2 x2] r2]|] eqn:E2; [|congruence].
+  destruct ty2; try congruence. intros _.
+  apply match_at_hyphen_inv in E2. apply match_at_suffix in E1.
+  eapply existsb_suffix; eauto.
+Qed.
+
+Lemma forallb_negb_existsb : forall (p : ascii -> bool) l,
+  forallb (fun c => negb (p c)) l = true -> existsb p l = false.
+Proof.
+  induction l as [|c l IH]; simpl; intros H; [reflexivity|].
+  apply andb_true_iff in H as [Hc H]. rewrite IH by assumption. now destruct (p c).
+Qed.
+
+(** missing hyphen: the coordinate text (up to the next colon) has no '-' at all *)
+Theorem refuse_missing_hyphen : forall name rest,
+  forallb notcolon name = true ->
+  forallb (fun c => negb (is_hyphen c)) (take_while notcolon rest) = true ->
+  parse_region_string (name ++ c_colon :: rest) = None.
+Proof.
+  intros name rest Hn Hh. rewrite parse_region_string_colon_gen by assumption.
+  destruct (is_nil (strip name)); [reflexivity|].
+  destruct (expect (tokenize (take_while notcolon rest))) as [[a ob]|] eqn:E; [|reflexivity].
+  exfalso. apply forallb_negb_existsb in Hh.
+  rewrite expect_needs_hyphen in Hh; [discriminate|]. now rewrite E.
+Qed.
+
+Lemma match_at_nonnumeric : forall w x r,
+  forallb is_blank w = true -> is_blank x = false -> is_digit_or_comma x = false ->
+  exists ty tx rest, match_at (w ++ x :: r) = Some ((ty, tx), rest) /\ ty <> COORD.
+Proof.
+  intros w x r Hw Hb Hdc. unfold match_at.
+  rewrite drop_while_app; [|assumption|exact Hb].
+  destruct (is_hyphen x); [do 3 eexists; split; [reflexivity|discriminate]|].
+  rewrite Hdc. do 3 eexists; split; [reflexivity|discriminate].
+Qed.
+
+(** the coordinate text starts (after blanks) with something that is not a digit or comma:
+    a leading '-' (negative start), a letter, a dot, a sign ... *)
+Theorem refuse_nonnumeric_start : forall name w x rest,
+  forallb notcolon name = true -> forallb is_blank w = true ->
+  is_blank x = false -> is_digit_or_comma x = false -> is_colon x = false ->
+  parse_region_string (name ++ c_colon :: w ++ x :: rest) = None.
+Proof.
+  intros name w x rest Hn Hw Hb Hdc Hc. rewrite parse_region_string_colon_gen by assumption.
+  destruct (is_nil (strip name)); [reflexivity|].
+  rewrite take_while_app_keep by now apply blank_notcolon.
+  simpl. unfold notcolon at 1. rewrite Hc. simpl.
+  rewrite tokenize_eq.
+  destruct (match_at_nonnumeric w x (take_while notcolon rest) Hw Hb Hdc) as (ty & tx & r & -> & Hty).
+  destruct ty; try congruence; reflexivity.
+Qed.
+
+Corollary refuse_leading_hyphen : forall name w rest,
+  forallb notcolon name = true -> forallb is_blank w = true ->
+  parse_region_string (name ++ c_colon :: w ++ c_hyphen :: rest) = None.
+Proof. intros. now apply refuse_nonnumeric_start. Qed.
+
+(** no coordinates at all after the colon *)
+Theorem refuse_no_coordinates : forall name w tail,
+  forallb notcolon name = true -> forallb is_blank w = true -> colon_tail tail ->
+  parse_region_string (name ++ c_colon :: w ++ tail) = None.
+Proof.
+  intros name w tail Hn Hw Ht. rewrite parse_region_string_colon_gen by assumption.
+  destruct (is_nil (strip name)); [reflexivity|].
+  rewrite take_while_app_keep by now apply blank_notcolon.
+  rewrite take_notcolon_tail, app_nil_r by assumption.
+  rewrite tokenize_eq. unfold match_at. rewrite drop_while_all by assumption.
+  destruct (last_non_newline w) as [[c r]|]; reflexivity.
+Qed.
+
+(** the end coordinate starts with something that is not a digit or comma ("5--3", "5-x") *)
+Theorem refuse_nonnumeric_end : forall name w1 t1 w2 w3 x rest,
+  forallb notcolon name = true ->
+  forallb is_blank w1 = true -> forallb is_blank w2 = true -> forallb is_blank w3 = true ->
+  ctok_ok_b t1 = true -> is_blank x = false -> is_digit_or_comma x = false -> is_colon x = false ->
+  parse_region_string (name ++ c_colon :: w1 ++ ctok_str t1 ++ w2 ++ c_hyphen :: w3 ++ x :: rest) = None.
+Proof.
+  intros name w1 t1 w2 w3 x rest Hn Hw1 Hw2 Hw3 Ht1 Hb Hdc Hc.
+  rewrite parse_region_string_colon_gen by assumption.
+  destruct (is_nil (strip name)); [reflexivity|].
+  assert (E : take_while notcolon (w1 ++ ctok_str t1 ++ w2 ++ c_hyphen :: w3 ++ x :: rest)
+              = w1 ++ ctok_str t1 ++ w2 ++ c_hyphen :: w3 ++ x :: take_while notcolon rest).
+  { rewrite take_while_app_keep by now apply blank_notcolon. f_equal.
+    rewrite take_while_app_keep by now apply ctok_notcolon. f_equal.
+    rewrite take_while_app_keep by now apply blank_notcolon. f_equal.
+    simpl. f_equal.
+    rewrite take_while_app_keep by now apply blank_notcolon. f_equal.
+    simpl. unfold notcolon at 1. now rewrite Hc. }
+  rewrite E.
+  rewrite tokenize_eq, match_at_ctok; try assumption.
+  2:{ apply tok_end_blank; [assumption|apply tok_end_hyphen]. }
+  rewrite tokenize_eq, match_at_hyphen by assumption.
+  rewrite tokenize_eq.
+  destruct (match_at_nonnumeric w3 x (take_while notcolon rest) Hw3 Hb Hdc) as (ty & tx & r & -> & Hty).
+  unfold expect. destruct (parse_humanized (ctok_str t1)); [|reflexivity].
+  destruct ty; try congruence; reflexivity.
+Qed.
+
+(** reversed coordinates *)
+Theorem refuse_reversed : forall name w1 t1 w2 w3 t2 junk a b,
+  name_ok_b name = true ->
+  forallb is_blank w1 = true -> forallb is_blank w2 = true -> forallb is_blank w3 = true ->
+  ctok_ok_b t1 = true -> ctok_ok_b t2 = true -> tok_end junk ->
+  ctok_val t1 = Some a -> ctok_val t2 = Some b -> b < a ->
+  parse_region_string (name ++ c_colon :: w1 ++ ctok_str t1 ++ w2 ++ c_hyphen :: w3 ++ ctok_str t2 ++ junk) = None.
+Proof.
+  intros. rewrite region_grammar_closed by assumption.
+  unfold region_result. rewrite H6, H7. destruct (b <? a) eqn:L; [reflexivity|lia].
+Qed.
+
+Lemma ctok_val_unknown_unit : forall t,
+  t_al t <> [] -> unit_mult (map to_upper (t_al t)) = None -> ctok_val t = None.
+Proof.
+  intros [ip d fd al] Hne Hu. unfold ctok_val, coord_value. simpl in *.
+  destruct al; [congruence|]. simpl is_nil. rewrite Hu.
+  now destruct (is_nil (remove_commas ip) && (negb d || is_nil fd)).
+Qed.
+
+(** unknown unit in either coordinate *)
+Theorem refuse_unknown_unit_region : forall name w1 t1 w2 w3 t2 junk,
+  name_ok_b name = true ->
+  forallb is_blank w1 = true -> forallb is_blank w2 = true -> forallb is_blank w3 = true ->
+  ctok_ok_b t1 = true -> ctok_ok_b t2 = true -> tok_end junk ->
+  (t_al t1 <> [] /\ unit_mult (map to_upper (t_al t1)) = None) \/
+  (t_al t2 <> [] /\ unit_mult (map to_upper (t_al t2)) = None) ->
+  parse_region_string (name ++ c_colon :: w1 ++ ctok_str t1 ++ w2 ++ c_hyphen :: w3 ++ ctok_str t2 ++ junk) = None.
+Proof.
+  intros name w1 t1 w2 w3 t2 junk Hn Hw1 Hw2 Hw3 Ht1 Ht2 Hj [[A B]|[A B]];
+    rewrite region_grammar_closed by assumption; unfold region_result.
+  - now rewrite ctok_val_unknown_unit.
+  - rewrite (ctok_val_unknown_unit t2) by assumption. now destruct (ctok_val t1).
+Qed.
+
+(** whatever is accepted has ordered, non-negative coordinates *)
+Lemma coord_value_nonneg : forall ipd hasdot fd al v,
+  forallb is_digit ipd = true -> forallb is_digit fd = true ->
+  coord_value ipd hasdot fd al = Some v -> 0 <= v.
+Proof.
+  intros ipd hasdot fd al v Hi Hf. unfold coord_value.
+  pose proof (digits_val_nonneg _ Hi). pose proof (digits_val_nonneg _ Hf).
+  destruct (is_nil al).
+  - destruct hasdot; [discriminate|]. destruct (is_nil ipd); [discriminate|]. intros E; inversion E; lia.
+  - destruct (is_nil ipd && (negb hasdot || is_nil fd)); [discriminate|].
+    destruct (unit_mult (map to_upper al)) as [m|] eqn:U; [|discriminate].
+    intros E; inversion E; subst. clear E.
+    assert (0 < m) by (apply unit_mult_spec in U; lia).
+    assert (0 < 10 ^ zlen fd) by (apply Z.pow_pos_nonneg; unfold zlen; lia).
+    apply Z.div_pos; [|assumption]. nia.
+Qed.
+
+Lemma ctok_val_nonneg : forall t v, ctok_ok_b t = true -> ctok_val t = Some v -> 0 <= v.
+Proof.
+  intros t v Ht Hv. apply ctok_ok_spec in Ht as (_ & H2 & H3 & _ & _).
+  eapply coord_value_nonneg; [| |exact Hv]; [now apply remove_commas_digits|assumption].
+Qed.
+
+(** ------------------------------------------------------------ parse_region *)
+Theorem check_region_sound : forall c oa ob cs c' a b,
+  check_region (c, oa, ob) cs = Some (c', a, b) ->
+  c' = c /\ 0 <= a <= b /\
+  (oa = Some a \/ oa = None /\ a = 0) /\
+  match cs with
+  | None => ob = Some b
+  | Some t => exists L, lookup c t = Some L /\ b <= L /\ (ob = Some b \/ ob = None /\ b = L)
+  end.
+Proof.
+  intros c oa ob cs c' a b. unfold check_region.
+  destruct cs as [t|].
+  - destruct (lookup c t) as [L|]; [|discriminate].
+    destruct oa as [a0|]; destruct ob as [b0|]; simpl;
+      repeat match goal with |- context [if ?x then _ else _] => destruct x eqn:? end;
+      intros H; inversion H; subst;
+      (split; [reflexivity|]); (split; [lia|]); (split; [tauto|]); eexists; (split; [reflexivity|]); (split; [lia|]); tauto.
+  - destruct oa as [a0|]; destruct ob as [b0|]; simpl;
+      repeat match goal with |- context [if ?x then _ else _] => destruct x eqn:? end;
+      intros H; inversion H; subst;
+      (split; [reflexivity|]); (split; [lia|]); (split; tauto).
+Qed.
+
+Theorem parse_region_sound : forall s cs c a b,
+  parse_region s cs = Some (c, a, b) ->
+  0 <= a <= b /\
+  (exists oa ob, parse_region_string s = Some (c, oa, ob) /\ (oa = Some a \/ oa = None /\ a = 0) /\
+                 match cs with
+                 | None => ob = Some b
+                 | Some t => exists L, lookup c t = Some L /\ b <= L /\ (ob = Some b \/ ob = None /\ b = L)
+                 end).
+Proof.
+  intros s cs c a b. unfold parse_region.
+  destruct (parse_region_string s) as [[[c0 oa] ob]|]; [|discriminate].
+  intros H. apply check_region_sound in H as (-> & H1 & H2 & H3).
+  split; [assumption|]. exists oa, ob. auto.
+Qed.
+
+(** unknown chromosome *)
+Theorem parse_region_unknown_name : forall s t c oa ob,
+  parse_region_string s = Some (c, oa, ob) -> lookup c t = None -> parse_region s (Some t) = None.
+Proof. intros s t c oa ob H L. unfold parse_region, check_region. now rewrite H, L. Qed.
+
+(** end beyond the chromosome *)
+Theorem parse_region_beyond_end : forall s t c oa b L,
+  parse_region_string s = Some (c, oa, Some b) -> lookup c t = Some L -> L < b -> parse_region s (Some t) = None.
+Proof.
+  intros s t c oa b L H Hl Hb. unfold parse_region, check_region. rewrite H, Hl.
+  destruct (b <? match oa with Some a => a | None => 0 end); [reflexivity|].
+  assert ((L <? b) = true) as -> by lia. now rewrite orb_true_r.
+Qed.
+
+(** acceptance: exactly the in-bounds regions, with the documented defaults *)
+Theorem parse_region_complete : forall s t c oa ob L,
+  parse_region_string s = Some (c, oa, ob) -> lookup c t = Some L ->
+  let a := match oa with Some a => a | None => 0 end in
+  let b := match ob with Some b => b | None => L end in
+  0 <= a <= b -> b <= L ->
+  parse_region s (Some t) = Some (c, a, b).
+Proof.
+  intros s t c oa ob L H Hl a b Hab HbL. unfold parse_region, check_region. rewrite H, Hl.
+  fold a. destruct ob as [b0|]; simpl in b; fold b.
+  - assert ((b <? a) = false) as -> by lia. assert ((a <? 0) = false) as -> by lia.
+    assert ((L <? b) = false) as -> by lia. reflexivity.
+  - subst b. assert ((L <? a) = false) as -> by lia. assert ((a <? 0) = false) as -> by lia.
+    assert ((L <? L) = false) as -> by lia. reflexivity.
+Qed.
+
+Theorem parse_region_no_chromsizes_open_end : forall s c oa,
+  parse_region_string s = Some (c, oa, None) -> parse_region s None = None.
+Proof. intros s c oa H. unfold parse_region, check_region. now rewrite H. Qed.
